@@ -81,10 +81,6 @@ theorem compactAttrs_idem (a : Attrs) : compactAttrs (compactAttrs a) = compactA
 
 /-! ### Pointwise relation of two lists -/
 
-inductive Forall2 {α β : Type} (R : α → β → Prop) : List α → List β → Prop
-  | nil : Forall2 R [] []
-  | cons {a b l m} : R a b → Forall2 R l m → Forall2 R (a :: l) (b :: m)
-
 theorem Forall2.imp {α β : Type} {R Q : α → β → Prop} (h : ∀ a b, R a b → Q a b) {l : List α} {m : List β}
     (hf : Forall2 R l m) : Forall2 Q l m := by
   induction hf with
